@@ -780,6 +780,8 @@ pub enum VerifNodeManageCmd {
     LoadSnapshot,
     /// (node id, status == Valid, client_set)
     Dump,
+    /// one pass of the 3 s heartbeat's liveness check: the genuine `check_node_status`
+    Tick,
 }
 
 #[cfg(rnacos_verif)]
@@ -802,6 +804,10 @@ impl Handler<VerifNodeManageCmd> for InnerNodeManage {
             }
             VerifNodeManageCmd::LoadSnapshot => {
                 self.load_snapshot_from_node();
+                Ok(vec![])
+            }
+            VerifNodeManageCmd::Tick => {
+                self.check_node_status();
                 Ok(vec![])
             }
             VerifNodeManageCmd::Dump => Ok(self
